@@ -225,9 +225,10 @@ Definition ogdec (code n : N) (s : list byte) : gres blob :=
 
 Record st := { stream : list byte;                      (* bytes in flight, not yet consumed by the receiver *)
                expect : list (blob * blob * list byte); (* messages sent and not yet received *)
+               errd : bool;                             (* an earlier message on this connection was rejected (body-level error) *)
                verdict : Z }.
 
-Definition st0 : st := {| stream := []; expect := []; verdict := 1%Z |}.
+Definition st0 : st := {| stream := []; expect := []; errd := false; verdict := 1%Z |}.
 
 Definition bad : list Z := [(-1)%Z].
 Definition b2z (b : bool) : Z := if b then 1%Z else 0%Z.
@@ -256,18 +257,23 @@ Definition rest_of (s : list byte) (r : rres blob blob) : list byte :=
 
 (* property verdict for one delivery against the message that was sent at that place in the sequence:
    1 fine; 3 altered payload delivered while the received payload checksum field was 0 (F8);
+   4 something that was not sent is delivered after an earlier message of the connection was rejected;
    2 any other delivery of something that was not sent *)
-Definition judge (exp : list (blob * blob * list byte)) (same : bool) (r : rres blob blob) : Z :=
+Definition judge (exp : list (blob * blob * list byte)) (e : bool) (same : bool) (r : rres blob blob) : Z :=
   match r with
   | ROk _ _ p _ chk _ =>
+      let other := if e then 4%Z else 2%Z in
       match exp with
       | (_, _, p0) :: _ =>
-          if blob_eqb p p0 then (if same then 1%Z else 2%Z)
-          else if negb chk && negb (lenN p =? 0) then 3%Z else 2%Z
-      | [] => 2%Z
+          if blob_eqb p p0 then (if same then 1%Z else other)
+          else if negb chk && negb (lenN p =? 0) then 3%Z else other
+      | [] => other
       end
   | _ => 1%Z
   end.
+
+Definition is_body_err (r : rres blob blob) : bool :=
+  match r with RErrBody _ | RErrCrc _ | RErrNotBulk _ => true | _ => false end.
 
 Definition worse (a b : Z) : Z := if (a =? 1)%Z then b else a.
 
@@ -289,31 +295,32 @@ Definition step (s : st) (op : list Z) : st * list Z :=
       match take_blob r1 with None => (s, bad) | Some (b, r2) =>
       match unrle r2 with None => (s, bad) | Some (p, _) =>
       let w := send blob blob (fun x => x) (fun x => x) h b p in
-      ({| stream := stream s ++ w; expect := expect s ++ [(h, b, p)]; verdict := verdict s |}, rle w)
+      ({| stream := stream s ++ w; expect := expect s ++ [(h, b, p)]; errd := errd s; verdict := verdict s |}, rle w)
       end end end
   | 2%Z :: r0 =>   (* Recv cap isbulk c1 n1 c2 n2 same *)
       match recv_args r0 with None => (s, bad) | Some a =>
       let r := do_recv (stream s) a in
       let '(_, _, _, _, _, _, same) := a in
-      ({| stream := rest_of (stream s) r; expect := tl (expect s);
-          verdict := worse (verdict s) (judge (expect s) same r) |},
+      ({| stream := rest_of (stream s) r; expect := tl (expect s); errd := errd s || is_body_err r;
+          verdict := worse (verdict s) (judge (expect s) (errd s) same r) |},
        obs_recv (stream s) (let '(cap, _, _, _, _, _, _) := a in cap) r)
       end
   | [3%Z; pos; pat] =>   (* Tamper: xor a bit pattern into the stream in flight *)
-      ({| stream := xor_at (stream s) (Z.to_N pos) (Z.to_N pat); expect := expect s; verdict := verdict s |}, [0%Z])
+      ({| stream := xor_at (stream s) (Z.to_N pos) (Z.to_N pat); expect := expect s; errd := errd s; verdict := verdict s |}, [0%Z])
   | 4%Z :: pos :: pat :: r0 =>   (* Probe: what a receive would do on the stream damaged by one burst; state unchanged *)
       match recv_args r0 with None => (s, bad) | Some a =>
       let s' := xor_at (stream s) (Z.to_N pos) (Z.to_N pat) in
       let r := do_recv s' a in
       let '(_, _, _, _, _, _, same) := a in
-      ({| stream := stream s; expect := expect s; verdict := worse (verdict s) (judge (expect s) same r) |},
+      ({| stream := stream s; expect := expect s; errd := errd s;
+          verdict := worse (verdict s) (judge (expect s) (errd s) same r) |},
        obs_recv s' (let '(cap, _, _, _, _, _, _) := a in cap) r)
       end
   | [5%Z; n] =>   (* GetBuffer(n): len, cap *)
       (s, [n; Z.of_N (pool_cap (Z.to_N n))])
   | [6%Z; k] =>   (* Cut: the connection breaks after k more bytes *)
       ({| stream := match takeN (Z.to_N k) (stream s) with Some (a, _) => a | None => stream s end;
-          expect := expect s; verdict := verdict s |}, [0%Z])
+          expect := expect s; errd := errd s; verdict := verdict s |}, [0%Z])
   | [9%Z] =>      (* property verdict of the case so far *)
       (s, [777%Z; verdict s])
   | _ => (s, bad)
